@@ -49,6 +49,12 @@ type Node struct {
 	Err      *tss.Error
 	Emitted  []tss.Message
 	Rand     *lockedRand
+	Secrets  []namedSecret // long-term secrets this party holds when the run starts (filled by the net builders)
+}
+
+type namedSecret struct {
+	name string
+	v    *big.Int
 }
 
 type Delivery struct {
